@@ -32,6 +32,8 @@ def gen_single_excitation(rng, kind, cls, axi):
     p["dosmartmesh"] = 0
     W, H = rng.choice([2.0, 3.0, 4.0]), rng.choice([1.5, 2.0, 3.0])
     x0 = rng.choice([0.5, 1.0]) if axi else rng.choice([-1.0, 0.0])
+    if axi and kind == "fem":
+        x0 = rng.choice([0.0, 0.25])            # conductor close to the axis: mesh nodes with 0 < r < 1 unit
     y0 = rng.choice([-0.5, 0.0])
     d = mesh_diameter(W * H / 70)
     if kind == "fee":
@@ -56,12 +58,16 @@ def gen_single_excitation(rng, kind, cls, axi):
         src = None
         cond = B.prop("circuits", name="cond", type=1, amps_re=(rng.choice([10.0, -4.0]) if cls == "circuit" else 0.0))
     sides = dict(l=dict(bdry=fixA), r=dict(bdry=fixB), b={}, t={})
+    if axi and kind == "fem" and x0 == 0.0:
+        sides["l"] = {}                          # the axis itself
     if cls == "surface" and src:
         sides["r"] = dict(bdry=src)
     if kind == "fem" or cls == "volume":
         sides["b"] = dict(bdry=fixB); sides["t"] = dict(bdry=fixB)
     B.rect(x0, y0, x0 + W, y0 + H, sides)
     bx0, bx1 = x0 + W * 0.375, x0 + W * 0.625
+    if axi and kind == "fem":
+        bx0, bx1 = x0 + W * 0.0625, x0 + W * 0.3125
     by0, by1 = y0 + H * 0.375, y0 + H * 0.625
     if kind == "fem":
         B.rect(bx0, by0, bx1, by1)
@@ -75,13 +81,17 @@ def gen_single_excitation(rng, kind, cls, axi):
     p["features"] = [kind, cls, "axi" if axi else "planar"]
     p["probe"] = [(x0 + W * 0.2, y0 + H * 0.3), (x0 + W * 0.8, y0 + H * 0.7), (x0 + W * 0.5, y0 + H * 0.15)]
     p["lab"] = (x0 + W * 0.125, y0 + H * 0.125)
+    p["inner"] = ((bx0 + bx1) / 2, (by0 + by1) / 2)
+    if axi and kind == "fem":
+        p["labels"][-1]["x"] = x0 + W * 0.75
+        p["lab"] = (x0 + W * 0.75, y0 + H * 0.125)
     return p
 
 
 KV = {"dirichlet": 0, "volume": 2, "surface": 1, "circuit": 0}
 
 
-def exponents(kind, cls, query):
+def exponents(kind, cls, query, axi=False):
     k = KV[cls]
     if query[0] == "point":
         if kind == "fee":      # V, Dx, Dy, Ex, Ey, ex, ey, nrg
@@ -90,14 +100,16 @@ def exponents(kind, cls, query):
             return [k, k - 1, k - 1, k - 1, k - 1, 0, 0]
         # A, B1, B2, Sig, E, H1, H2, Je, Js, Mu1, Mu2, Pe, Ph, ff
         js = -2 if cls == "circuit" else 0
-        return [k, k - 1, k - 1, 0, 2 * (k - 1), k - 1, k - 1, None, js, 0, 0, None, None, None]
+        # axisymmetric problems report the flux 2 pi r A instead of A
+        return [k + 1 if axi else k, k - 1, k - 1, 0, 2 * (k - 1), k - 1, k - 1, None, js, 0, 0, None, None, None]
     if query[0] == "block":
         t = query[2]
         if kind == "fee":
             return {0: [2 * (k - 1) + 3, None], 1: [2, None], 2: [3, None]}[t]
         if kind == "feh":
             return {0: [k, None], 1: [2, None], 2: [3, None]}[t]
-        return {2: [2 * (k - 1) + 3, None], 5: [2, None], 10: [3, None]}[t]
+        # 0: int A.J dV, 1: int A dV, 2: energy, 5: area, 10: volume
+        return {0: [2 * (k - 1) + 3, None], 1: [k + 3, None], 2: [2 * (k - 1) + 3, None], 5: [2, None], 10: [3, None]}[t]
     if query[0] == "cond":
         if kind == "fem":      # current, voltage drop, flux linkage
             return [0, None, k + 1]
@@ -105,10 +117,10 @@ def exponents(kind, cls, query):
     return None
 
 
-def compare(kind, cls, s, queries, r1, r2):
+def compare(kind, cls, s, queries, r1, r2, axi=False):
     for qi, q in enumerate(queries):
         tag = "q%d" % qi
-        ex = exponents(kind, cls, q)
+        ex = exponents(kind, cls, q, axi)
         a, b = r1.get(tag), r2.get(tag)
         if a is None or b is None or len(a) != len(b):
             return "query %r missing in one of the runs" % (q,)
@@ -132,6 +144,8 @@ def run_pair(ctx, k, p, u1, u2):
     kind, cls = p["features"][0], p["features"][1]
     blocks = {"fee": [0, 1, 2], "feh": [0, 1, 2], "fem": [2, 5, 10]}[kind]
     queries = [("nodes",)] + [("point", x, y) for (x, y) in p["probe"]] + [("block", [p["lab"]], t) for t in blocks] + [("cond", "cond")]
+    if kind == "fem":
+        queries += [("block", [p["inner"]], t) for t in (0, 1, 2)]
     out = []
     for tagu, u in (("a", u1), ("b", u2)):
         q = copy.deepcopy(p); q["units"] = u
@@ -150,7 +164,8 @@ def pair_oracle(p, u1, u2, out, queries):
     (r1, n1, e1), (r2, n2, e2) = out
     if e1 != e2 or len(n1) != len(n2):
         return "the mesh is not identical in %s and %s (%d vs %d nodes)" % (u1, u2, len(n1), len(n2))
-    k = KV[cls]
+    axi = p["features"][2] == "axi"
+    k = KV[cls] + (1 if (axi and kind == "fem") else 0)      # axisymmetric magnetics stores 2 pi r A
     vmax = max(abs(a[2]) for a in n1) or 1e-300
     for i, (a, b) in enumerate(zip(n1, n2)):
         # x*cf/cf is not the identity in binary64: allow a few ulps
@@ -158,20 +173,24 @@ def pair_oracle(p, u1, u2, out, queries):
             return "node %d reported at %r in %s and %r in %s: coordinates are not in the declared unit" % (i, a[:2], u1, b[:2], u2)
         if abs(b[2] - a[2] * s ** k) > 3e-5 * vmax * s ** k:
             return "nodal potential %d: %.12g (%s) vs %.12g (%s), expected factor s^%d" % (i, a[2], u1, b[2], u2, k)
-    return compare(kind, cls, s, queries, r1, r2)
+    return compare(kind, cls, s, queries, r1, r2, axi)
 
 
 def correspond(ctx):
     rng = ctx.rng
     plan = [("fee", "dirichlet", False), ("fee", "volume", False), ("fee", "surface", True), ("feh", "dirichlet", True),
             ("feh", "volume", False), ("fem", "dirichlet", False), ("fem", "volume", False), ("fem", "circuit", False),
-            ("feh", "surface", False), ("fee", "dirichlet", True), ("fee", "volume", True)]
+            ("feh", "surface", False), ("fee", "dirichlet", True), ("fee", "volume", True),
+            ("fem", "circuit", True), ("fem", "volume", True)]
     if not ctx.quick():
         plan = plan * 5
     feats, samples, n = {}, [], 0
     for k, (kind, cls, axi) in enumerate(plan):
         p = gen_single_excitation(rng, kind, cls, axi)
         u1, u2 = rng.sample(femgen.UNITS, 2)
+        if kind == "fem" and axi:
+            # the post-processor's "node on the axis" tests are made in drawing units: pair a coarse unit with a fine one
+            u1, u2 = rng.choice(["millimeters", "centimeters", "inches"]), rng.choice(["microns", "mils"]) if k % 2 else "microns"
         for ft in p["features"] + [u1, u2]:
             feats[ft] = feats.get(ft, 0) + 1
         out, err, queries = run_pair(ctx, k, p, u1, u2)
